@@ -664,6 +664,7 @@ class Executor(Engine, ExprMixin, StmtMixin, CallMixin):
             self.assume(st, z3.Length(z3.SubString(sstr, iv, 1)) == 1)
         else:
             elem_t = self.list_elem(st, r, iv)
+            self.note_distinct_read(st, r, iv, n, elem_t)
             es = seq.hint.elem
         if view is not None and view in ('items', 'keys', 'values'):
             k = elem_t
@@ -859,7 +860,15 @@ class Executor(Engine, ExprMixin, StmtMixin, CallMixin):
         pre = State(dict(env), dict(st.heap), st.guard)
         envl = self.let_env(c, env, pre)
         pre.vars = dict(envl)
+        self.distinct_lists = {}
         for r in c.requires:
+            md = _re.fullmatch(r'all_distinct\((.*)\)', r.strip())
+            if md:
+                # pairwise distinctness of the elements of a list is not assumed as a quantified formula: it is
+                # instantiated for every pair of positions at which the list is read (exprs.getitem)
+                lv = self.eval_in(st, c, envl, md.group(1))
+                self.distinct_lists[simp(Val.r(lv.t)).get_id()] = []
+                continue
             wd, truth = self.eval_spec(st, r, c, envl, pre)
             self.assume(st, And(wd, truth))
         self.n_entry_assumes = len(self.assumes)
